@@ -1,4 +1,5 @@
 import Liquid.Compare
+import Proofs.ToLiquidLemmas
 /-!
 # Helper lemmas for property C09 (`Proofs/C09.lean`)
 
@@ -77,11 +78,16 @@ theorem safeEqual_noPanic (a b : GoVal) : (safeEqual a b).isPanic = false := by
 theorem equalAux_false (a b : GoVal) : equalAux false a b = equalTL a (toLiq b) := by
   cases a <;> simp [equalAux, equalTL, seqK, mapK]
 
-theorem equalAux_true (a b : GoVal) : equalAux true a b = equalTL (toLiq a) (toLiq b) := by
-  cases a with
-  | drop v => simp [equalAux, toLiq, equalAux_false]
-  | ptr v => cases v <;> simp [equalAux, toLiq, equalAux_false, equalTL, seqK, mapK]
-  | _ => simp [equalAux, equalTL, seqK, mapK, toLiq]
+theorem equalAux_true : ∀ a b : GoVal, equalAux true a b = equalTL (toLiq a) (toLiq b)
+  | .drop v, b => by rw [equalAux, toLiq]; exact equalAux_true v b
+  | .ptr (.drop v), b => by simp only [equalAux, toLiq]; exact equalAux_true v b
+  | .ptr .nil, b | .ptr (.bool _), b | .ptr (.int _ _), b | .ptr (.flt _ _), b | .ptr (.str _), b
+  | .ptr (.bytes _), b | .ptr (.slice _ _), b | .ptr (.array _ _), b | .ptr (.map _ _ _), b
+  | .ptr (.mapSlice _), b | .ptr (.keyedMap _), b | .ptr (.range _ _), b | .ptr (.ptr _), b | .ptr .nilPtr, b
+  | .ptr (.struct _), b | .ptr (.time _), b => by simp [equalAux, toLiq, equalTL, seqK, mapK]
+  | .nil, b | .bool _, b | .int _ _, b | .flt _ _, b | .str _, b | .bytes _, b | .slice _ _, b
+  | .array _ _, b | .map _ _ _, b | .mapSlice _, b | .keyedMap _, b | .range _ _, b | .nilPtr, b
+  | .struct _, b | .time _, b => by simp [equalAux, equalTL, seqK, mapK, toLiq]
 
 /-- `Equal(a, b)` is its body on `ToLiquid(a)`, `ToLiquid(b)` -/
 theorem equal_eq (a b : GoVal) : equal a b = equalTL (toLiq a) (toLiq b) := equalAux_true a b
@@ -185,10 +191,7 @@ theorem mapAll_noPanic (xs bs : List (GoVal × GoVal))
       · simpa using ih (fun e he => h e (by simp [he]))
 
 theorem sizeOf_toLiq_le (a : GoVal) : sizeOf (toLiq a) ≤ sizeOf a := by
-  cases a with
-  | drop v => simp [toLiq]
-  | ptr v => cases v <;> simp [toLiq]; omega
-  | _ => simp [toLiq]
+  rw [toLiq_eq_toLiquid]; exact sizeOf_toLiquid_le a
 
 theorem sizeOf_lt_of_mem_slice {t : Ty} {xs : List GoVal} {x : GoVal} (h : x ∈ xs) :
     sizeOf x < sizeOf (GoVal.slice t xs) := by
@@ -584,7 +587,9 @@ theorem wfVals_iff (kvs : List (GoVal × GoVal)) :
   | cons e kvs ih => obtain ⟨k, v⟩ := e; simp [wfVals, ih]
 
 theorem wfE_toLiq {a : GoVal} (h : wfE a = true) : wfE (toLiq a) = true ∧ isDropV (toLiq a) = false := by
-  cases a <;> simp_all [wfE, toLiq, isDropV]
+  cases a with
+  | drop v => cases v <;> simp_all [wfE, toLiq, isDropV]
+  | _ => simp_all [wfE, toLiq, isDropV]
 
 /-! ### computation of `equalTL` on containers -/
 
